@@ -44,7 +44,8 @@ Record import_job := mkIJ {
   ij_snap : list file;       (* existingIndexes (locked) *)
   ij_phase : phase;
   ij_created : list file;    (* result of FromPcap, valid AtDone *)
-  ij_usednew : N }.          (* usedNewStreamIDs *)
+  ij_usednew : N;            (* usedNewStreamIDs *)
+  ij_nproc : nat }.          (* processedFiles *)
 
 Record merge_job := mkMJ {
   mj_off : nat;
@@ -167,7 +168,22 @@ Definition find_merge (nunm : nat) (fs : list file) : option nat :=
 
 (* ---------------------------------------------------------------- builder.FromPcap on generated captures *)
 Section WithCaptures.
-Variable capdb : N -> capture.     (* contents of capture file k *)
+Variable capdb : N -> capture.     (* contents of capture file k ([] for an unreadable file) *)
+Variable bad : N -> bool.          (* capture file k cannot be read (readPackets fails) *)
+
+(* FromPcap's loading loop: the files up to the first unreadable one; an unreadable first file alone
+   ("report that we failed to process a single pcap": processedFiles = 1, nothing created) *)
+Fixpoint good_prefix (ks : list N) : list N :=
+  match ks with
+  | [] => []
+  | k :: r => if bad k then [] else k :: good_prefix r
+  end.
+
+Definition proc_caps (ks : list N) : list N :=
+  match good_prefix ks with
+  | [] => firstn 1 ks
+  | g => g
+  end.
 
 Fixpoint cap_bytes (c : capture) (fl : N) : N :=
   match c with
@@ -229,8 +245,9 @@ Fixpoint assign (allk : list N) (snap : list file) (fls : list N) (next : N) : l
       (mkEntry (fst idn) fl (total_bytes allk fl) :: es, n)
   end.
 
-(* result of FromPcap: entries of the created file, usedNewStreamIDs, new knownPcaps *)
-Definition from_pcap (knownk newk : list N) (snap : list file) : list entry * N * list N :=
+(* result of FromPcap: entries of the created file, usedNewStreamIDs, new knownPcaps (processedFiles = length (proc_caps files)) *)
+Definition from_pcap (knownk files : list N) (snap : list file) : list entry * N * list N :=
+  let newk := proc_caps files in
   let newk' := filter (fun k => match capdb k with [] => false | _ => true end) newk in
   let allk := knownk ++ newk' in
   let touched := filter (in_caps newk') (flows_of allk) in
@@ -262,7 +279,7 @@ Definition launch_import (files : list N) (st : state) : state :=
   let snap := copy_from 0 st in
   mkState (indexes st) (lock snap (used st)) (disk st) (queue st) (known st) (processed st) (next_cap st)
           (next_id st) (next_uid st) (nunm st) (ntags st) (unc st) (dirty st)
-          (Some (mkIJ files (next_id st) snap AtStart [] 0)) (mjob st) (tjob st) (views st).
+          (Some (mkIJ files (next_id st) snap AtStart [] 0 0)) (mjob st) (tjob st) (views st).
 
 (* startTaggingJobIfNeeded *)
 Definition start_tagging (st : state) : state :=
@@ -395,14 +412,14 @@ Definition step (st : state) (a : action) : state :=
                    (ijob st) (mjob st) (invalidate_tj hit (tjob st)) (views st))
   | AStart KImport =>
       match ijob st with
-      | Some (mkIJ caps nx snap AtStart _ _) =>
+      | Some (mkIJ caps nx snap AtStart _ _ _) =>
           let '(es, usednew, allk) := from_pcap (known st) caps snap in
           let created := match es with [] => [] | _ => [mkFile (next_uid st) es] end in
           mkState (indexes st) (used st) (map f_uid created ++ disk st) (queue st)
                   (match es with [] => known st | _ => allk end) (processed st) (next_cap st)
                   (next_id st) (match es with [] => next_uid st | _ => next_uid st + 1 end) (nunm st) (ntags st)
                   (unc st) (dirty st)
-                  (Some (mkIJ caps nx snap AtDone created usednew)) (mjob st) (tjob st) (views st)
+                  (Some (mkIJ caps nx snap AtDone created usednew (length (proc_caps caps)))) (mjob st) (tjob st) (views st)
       | _ => st
       end
   | AStart KMerge =>
@@ -425,14 +442,14 @@ Definition step (st : state) (a : action) : state :=
       end
   | AComplete KImport =>
       match ijob st with
-      | Some (mkIJ caps nx snap AtDone created usednew) =>
+      | Some (mkIJ caps nx snap AtDone created usednew nproc) =>
           (* existingIndexesReleaser.release(mgr) *)
           let md := release snap (used st, disk st) in
           let has := match created with [] => false | _ => true end in
           let idx := indexes st ++ created in
           let u2 := lock created (fst md) in
-          let q := skipn (length caps) (queue st) in
-          let st1 := mkState idx u2 (snd md) q (known st) (processed st ++ caps) (next_cap st)
+          let q := skipn nproc (queue st) in
+          let st1 := mkState idx u2 (snd md) q (known st) (processed st ++ firstn nproc caps) (next_cap st)
                              (if has then nx + usednew else next_id st) (next_uid st) (nunm st) (ntags st)
                              (if has then ntags st else unc st) (if has then true else dirty st)
                              None (mjob st) (tjob st) (views st) in
@@ -498,5 +515,5 @@ Definition enabled (st : state) (a : action) : bool :=
 End WithCaptures.
 
 (* the instance that is extracted and run against the Go code *)
-Definition step_impl (capdb : N -> capture) : state -> action -> state := step capdb false merge_ents.
-Definition step_legacy (capdb : N -> capture) : state -> action -> state := step capdb true merge_ents.
+Definition step_impl (capdb : N -> capture) (bad : N -> bool) : state -> action -> state := step capdb bad false merge_ents.
+Definition step_legacy (capdb : N -> capture) (bad : N -> bool) : state -> action -> state := step capdb bad true merge_ents.
